@@ -331,7 +331,11 @@ def check_uses_dask(rep, ddf, frames, meta):
     fresh.partition_sindex
     rep.evaluations += 1
     keys = sorted(fresh._partition_bounds)
-    want_b = np.array([np.asarray(p[name].total_bounds, dtype=float) for p in frames])
+    # (the extents of the named column per partition, with the partitioning of the collection
+    # itself: to_delayed() may optimise a repartition away and yield another partitioning)
+    want_b = np.asarray(ddf[name].map_partitions(
+        lambda s: pd.DataFrame([s.total_bounds], columns=['x0', 'y0', 'x1', 'y1'])).compute(
+        scheduler='synchronous').values, dtype=float)
     got_b = np.asarray(fresh._partition_bounds.get(name, pd.DataFrame()).values, dtype=float)
     same = got_b.shape == want_b.shape and bool(np.all((got_b == want_b) | (np.isnan(got_b) & np.isnan(want_b))))
     if keys != [name] or sorted(fresh._partition_sindex) != [name] or not same:
@@ -408,6 +412,8 @@ def gen_dop(rng, kind, ddf, frames, nshuffles):
     # then depends on the optimizer (states with a valid active column are not affected)
     keep_act = nshuffles > 0
     if kind == 'DSubset':
+        if not cols:
+            return None
         k = rng.randint(1, len(cols))
         names = rng.sample(cols, k)
         if act in cols and act not in names and (keep_act or rng.random() < 0.7):
@@ -452,8 +458,10 @@ def gen_dop(rng, kind, ddf, frames, nshuffles):
             return None
         if kind == 'DSetIndex':
             op['name'] = 'v'
-        if kind in ('DRepartition', 'DPackPartitions'):
+        if kind == 'DPackPartitions':
             op['want'] = rng.randint(1, 3)
+        if kind == 'DRepartition':
+            op['want'] = rng.randint(1, ddf.npartitions)     # to fewer (or as many) partitions
     elif kind in ('DCx', 'DCxPartitions'):
         if not parts_ok:
             return None
@@ -463,7 +471,7 @@ def gen_dop(rng, kind, ddf, frames, nshuffles):
         op['sel'] = U.partitions_meeting(frames, act, op['box']) if valid else []
     elif kind == 'DSetGeometry':
         r = rng.random()
-        op['name'] = rng.choice(gcols) if gcols and r < 0.9 else rng.choice(cols)
+        op['name'] = rng.choice(gcols) if gcols and r < 0.9 else (rng.choice(cols) if cols else 'missing')
     return op
 
 
@@ -498,11 +506,24 @@ def run_dask_steps(ddf, dops_spec, rep, rng, nsteps, history, layout_meta):
             res.append(None)
             break
         frames = []
+        del U.PART_ERRORS[:]
         o = U.observe_dask(ddf, frames)
-        if not U.is_bad(o) and op['op'] in SHUFFLES + ('DRepartition',):
+        if not U.is_bad(o) and op['op'] in SHUFFLES and any(p_ is None for p_ in o[1]) and U.PART_ERRORS \
+                and all(t in ('AssertionError', 'IndexError') and '/dask/' in fn for t, fn in U.PART_ERRORS):
+            # Dask cannot build some partitions of a repartition to MORE partitions than the shuffle
+            # produced (one row / one distinct key; `assert npartitions_input > npartitions`,
+            # divisions IndexError): outside the model, the operation is not counted
+            done.pop()
+            rep.count('dask:degenerate-repartition-skipped')
+            break
+        if not U.is_bad(o) and op['op'] in SHUFFLES:
             op['nout'] = len(o[1])
         res.append(o if U.is_bad(o) else C.Some(o))
         if U.is_bad(o):
+            break
+        if o[0][0] and o[0][2] is None:
+            # the active column is gone (a GeoDataFrame meta whose .geometry raises): how Dask
+            # derives further metas from such a frame depends on its optimizer; the sequence ends
             break
     return first, res, done, ddf, frames
 
